@@ -10,7 +10,7 @@ VARIABLES o, stage
 vars == <<o, stage>>
 
 O0 == [certFile |-> "none", certLoaded |-> "none", keyFile |-> "none", keyLoaded |-> "none", caFile |-> "none",
-       caLoaded |-> "none", caPool |-> "none", serverName |-> FALSE, insecure |-> FALSE, callback |-> FALSE,
+       caLoaded |-> "none", caPool |-> "none", serverName |-> "none", insecure |-> FALSE, callback |-> FALSE,
        ticketsDisabled |-> FALSE, cache |-> FALSE]
 
 Init == o = O0 /\ stage = 0
@@ -20,7 +20,7 @@ Next ==
   /\ CASE stage = 0 -> \E a \in CertFiles, b \in CertLoadeds : o' = [o EXCEPT !.certFile = a, !.certLoaded = b]
        [] stage = 1 -> \E a \in KeyFiles, b \in KeyLoadeds : o' = [o EXCEPT !.keyFile = a, !.keyLoaded = b]
        [] stage = 2 -> \E a \in CAFiles, b \in CALoadeds, p \in CAPools : o' = [o EXCEPT !.caFile = a, !.caLoaded = b, !.caPool = p]
-       [] stage = 3 -> \E a, b \in BOOLEAN : o' = [o EXCEPT !.serverName = a, !.insecure = b]
+       [] stage = 3 -> \E a \in ServerNames, b \in BOOLEAN : o' = [o EXCEPT !.serverName = a, !.insecure = b]
        [] stage = 4 -> \E a, b, d \in BOOLEAN : o' = [o EXCEPT !.callback = a, !.ticketsDisabled = b, !.cache = d]
        [] OTHER -> FALSE
 
@@ -30,6 +30,8 @@ Cfg(x) ==
   LET c == Config(x) IN
   CASE Mutant = "none" -> c
     [] Mutant = "skipverify-not-forced-off" -> IF c.err = "" THEN [c EXCEPT !.skipVerify = x.insecure] ELSE c
+    [] Mutant = "ip-servername-dropped" -> IF c.err = "" /\ x.serverName \in {"ipv4", "ipv6"}
+                                           THEN [c EXCEPT !.serverName = "none", !.skipVerify = x.insecure] ELSE c
     [] Mutant = "system-mixed-in" -> IF c.err = "" /\ ~c.system /\ x.caPool = "none" THEN [c EXCEPT !.system = TRUE] ELSE c
     [] Mutant = "key-error-swallowed" -> IF c.err \in {"cert", "key"} THEN [Config([x EXCEPT !.certFile = "none", !.certLoaded = "none"]) EXCEPT !.err = ""] ELSE c
     [] Mutant = "loaded-cert-ignored" -> IF x.certFile = "none" THEN Config([x EXCEPT !.certLoaded = "none"]) ELSE c
@@ -39,10 +41,15 @@ Done == stage = 5
 PropertyHolds == Done => ConfigAllowed(o, Cfg(o))
 
 \* security consequences on the handshake sub-model
-NoSilentSkip  == Done /\ o.serverName => \A n \in DOMAIN Servers : HandshakeOK(Cfg(o), Servers[n]) => Servers[n].nameOK /\ Servers[n].issuer \in SuppliedRoots(o)
+NoSilentSkip  == Done /\ o.serverName # "none" => \A n \in DOMAIN Servers : HandshakeOK(Cfg(o), Servers[n]) => Servers[n].nameOK /\ Servers[n].issuer \in SuppliedRoots(o)
 UntrustedCA   == Done /\ ~o.insecure => \A n \in DOMAIN Servers : HandshakeOK(Cfg(o), Servers[n]) => Servers[n].issuer \in SuppliedRoots(o)
 NeverOldTLS   == Done => ~HandshakeOK(Cfg(o), Servers["E"])
 CertPresented == Done /\ HandshakeOK(Cfg(o), Servers["D"]) => Presented(Cfg(o), Servers["D"]) = CertSlot(o) /\ CertSlot(o) # "none"
+
+\* a later handshake presents what was configured, whatever happened to the files since
+StableIdentity == Done => \A m \in FileMutations : PresentedAfter(Cfg(o), Servers["D"], m) = Presented(Cfg(o), Servers["D"])
+RereadMutant   == Done => \A m \in FileMutations :           \* must be violated
+                    RereadPresented(Cfg(o), Servers["D"], o.certFile # "none", m) = Presented(Cfg(o), Servers["D"])
 
 \* non-vacuity witnesses (violated)
 NeverErr  == Done => Config(o).err = ""
